@@ -152,6 +152,11 @@ impl Ctx {
     }
 
     pub fn canon(&self, path: &str) -> String {
+        if !self.root.is_empty() && path != "/" && self.root.starts_with(&format!("{}/", path.trim_end_matches('/'))) {
+            // an ancestor of the scratch root: its real name is not part of the scenario
+            let depth = self.root[path.trim_end_matches('/').len()..].matches('/').count();
+            return format!("$ROOT-ANCESTOR{depth}");
+        }
         if !self.root.is_empty() && path.starts_with(&self.root) {
             format!("$ROOT{}", &path[self.root.len()..])
         } else if !self.stub.is_empty() && path.starts_with(&self.stub) {
